@@ -15,6 +15,16 @@ CHECKS = {
  "C02": dict(cat="model_checking", technique="explicit-state BFS over action sequences through the real entrypoint; bit-exact share-sum oracle on every transition",
    text="Same search with transfer-account, close-balance, close-account, bankruptcy and close-bank in the alphabet; on every transition delta(bank totals) must equal the sum of position deltas bit-exactly, except for counted sub-0.0001 dust on slot deactivation.",
    ref="6 C02"),
+
+ "C15": dict(cat="model_checking", technique="explicit-state search to the fixpoint of the pause machine driven through the real instructions, time-abstract state key, region grid plus bounded off-grid deviations",
+   text="All reachable states of the emergency-pause machine (pause / admin unpause / permissionless unpause / propagate / time ticks on the 600 s region grid plus <=1 (quick) or <=2 (thorough) one-second deviations) are explored to the fixpoint through marginfi::entry; every pause edge and every state is checked against the 30-minute push, 60-minute horizon, three-per-window and 24-hour reset bounds, and a user deposit probe shows blocking ends without anyone acting.",
+   ref="6 C15"),
+ "C18": dict(cat="exploration", technique="bounded-exhaustive enumeration of interest-curve configurations (complete product over a small menu + shape-directed larger menus) against the real validator and rate calculator",
+   text="Every 5-point configuration over the small menu (any padding placement) and every strictly-increasing-utilisation shape over a larger menu, x zero/hundred rates, plus a legacy-curve menu, is given to the real validate(); every accepted curve is evaluated at all breakpoints, +-1/2 ulp, segment interior points, 0, 1 and beyond, under 3 fee vectors, and must be defined, bounded, exact at its points and monotone.",
+   ref="6 C18"),
+ "C20": dict(cat="exploration", technique="complete products over boundary-directed input menus of the venue conversion functions, compared with exact rational arithmetic; composite price adjustment through the real oracle adapter",
+   text="All combinations of supplies, decimals, amounts, prices and rates from boundary-directed menus are pushed through the Kamino/Solend/Drift conversion and price-adjustment functions (and the real OraclePriceFeedAdapter for the adjusted price); results must never exceed the exact rational value, round trips never gain, errors only on overflow / zero divisor, staleness exactly 'refreshed before now'.",
+   ref="6 C20"),
 }
 
 checks = []
